@@ -376,6 +376,20 @@ class Canon:
 
     # ---- C7 and expression-level normalisation of simple statements
     def _simple_header(self, st):
+        # `for T in (E for x in I if C): B`  ==  `for x in I: if C: T = E; B`
+        if isinstance(st, ast.For) and isinstance(st.iter, (ast.GeneratorExp, ast.ListComp)) and len(st.iter.generators) == 1 and not st.iter.generators[0].is_async and not st.orelse:
+            g_ = st.iter.generators[0]
+            tnames = {n_.id for n_ in ast.walk(st.target) if isinstance(n_, ast.Name)}
+            xnames = {n_.id for n_ in ast.walk(g_.target) if isinstance(n_, ast.Name)}
+            bnames = {n_.id for b_ in st.body for n_ in ast.walk(b_) if isinstance(n_, ast.Name)}
+            if not (xnames & bnames) and not (xnames & tnames) and isinstance(st.iter, ast.GeneratorExp):
+                body_ = [ast.Assign([st.target], st.iter.elt)] + list(st.body)
+                for f_ in reversed(g_.ifs):
+                    body_ = [ast.If(f_, body_, [])]
+                new_ = _loc(ast.For(g_.target, g_.iter, body_, [], None), st)
+                ast.fix_missing_locations(new_)
+                new_.body = self.block(new_.body, "loop")
+                return self._simple_header(new_)
         # `for k, v in d.items(): B` with k unused in B  ==  `for v in d.values(): B`
         if isinstance(st, ast.For) and isinstance(st.target, ast.Tuple) and len(st.target.elts) == 2 and all(isinstance(e, ast.Name) for e in st.target.elts) and isinstance(st.iter, ast.Call) and isinstance(st.iter.func, ast.Attribute) and st.iter.func.attr == "items" and not st.iter.args and not st.iter.keywords:
             k_, v_ = st.target.elts[0].id, st.target.elts[1].id
@@ -383,8 +397,6 @@ class Canon:
             if not used_k and k_ != v_:
                 st.target = ast.copy_location(ast.Name(v_, ast.Store()), st.target)
                 st.iter = ast.copy_location(ast.Call(ast.Attribute(st.iter.func.value, "values", ast.Load()), [], []), st.iter)
-        if isinstance(st, ast.Assign) and len(st.targets) == 1 and isinstance(st.targets[0], ast.Name) and isinstance(st.value, ast.BinOp) and isinstance(st.value.left, ast.Name) and st.value.left.id == st.targets[0].id and isinstance(st.value.op, (ast.Add, ast.Sub, ast.Mult)):
-            st = _loc(ast.AugAssign(st.targets[0], st.value.op, st.value.right), st)
         return st
 
     def _simple(self, st: ast.stmt) -> ast.stmt:
@@ -396,6 +408,8 @@ class Canon:
             nm_ = f_.attr if isinstance(f_, ast.Attribute) else (f_.id if isinstance(f_, ast.Name) else "")
             if nm_ in self.noreturn and (isinstance(st, ast.Return) or (len(st.targets) == 1 and isinstance(st.targets[0], ast.Name))):
                 st = _loc(ast.Expr(st.value), st)
+        if isinstance(st, ast.Assign) and len(st.targets) == 1 and isinstance(st.targets[0], ast.Name) and isinstance(st.value, ast.BinOp) and isinstance(st.value.left, ast.Name) and st.value.left.id == st.targets[0].id and isinstance(st.value.op, (ast.Add, ast.Sub, ast.Mult)):
+            st = _loc(ast.AugAssign(st.targets[0], st.value.op, st.value.right), st)
         for fld, val in ast.iter_fields(st):
             if isinstance(val, ast.expr):
                 setattr(st, fld, _ExprNorm().visit(val))
